@@ -362,10 +362,10 @@ def find_struct(repo, file, name, macro=None):
     raise Undecided("anchor lost: struct %s not found in %s" % (name, file))
 
 
-def find_const(repo, file, name):
+def find_const(repo, file, name, keyword="const"):
     s = load("%s/%s" % (repo, file))
     for p in range(len(s) - 1):
-        if s.txt(p) == "const" and s.txt(p + 1) == name:
+        if s.txt(p) == keyword and s.txt(p + 1) == name:
             q = p
             while s.txt(q) != ";":
                 if s.kind(q) == "open":
